@@ -16,6 +16,7 @@ mod git_commit_parser;
 mod pos_conv;
 // --- harness ---
 mod common;
+mod c02typst;
 mod rules;
 mod c02md;
 mod c12;
@@ -63,6 +64,11 @@ fn main() {
     if args[1] == "mdprobe" {
         quiet_panics();
         c02md::probe(&args[2..]);
+        return;
+    }
+    if args[1] == "typprobe" {
+        quiet_panics();
+        c02typst::probe(&args[2..]);
         return;
     }
     let prop = args[1].clone();
